@@ -2476,13 +2476,13 @@ oracle_ledger = guarded(_oracle_ledger)
 
 CLAUSES = [
     Clause('data', oracle_data, data_cases, quick=6000, thorough=150000,
-           min_share={'shared': 0.12, 'shared_scaled': 0.085, 'shared_2': 0.045, 'shared_3': 0.07, 'tiny_tilt': 0.09,
-                      'tiny_1e-9_1e-5': 0.05, 'tiny_cleaned': 0.05, 'tiny_1e-5_1e-3': 0.03, 'wu': 0.13, 'wu_pre_default': 0.065,
-                      'wu_pre_other': 0.028, 'wu_named': 0.085, 'wu_seed': 0.015, 'wu_SI': 0.013,
+           min_share={'shared': 0.12, 'shared_scaled': 0.078, 'shared_2': 0.045, 'shared_3': 0.07, 'tiny_tilt': 0.085,
+                      'tiny_1e-9_1e-5': 0.047, 'tiny_cleaned': 0.047, 'tiny_1e-5_1e-3': 0.028, 'wu': 0.13, 'wu_pre_default': 0.053,
+                      'wu_pre_other': 0.028, 'wu_named': 0.084, 'wu_seed': 0.015, 'wu_SI': 0.013,
                       'nt': 0.15, 'imageflags': 0.18, 'extended': 0.3, 'velocities': 0.11, 'only_yz': 0.015,
                       'hybrid': 0.02, 'safecopy': 0.09, 'potential': 0.07, 'pot_override': 0.024, 'pot_own': 0.02,
                       'filename': 0.022, 'read_data': 0.012, 'history': 0.08, 'form_list': 0.04, 'form_fortran': 0.045,
-                      'form_readonly': 0.06, 'form_strided': 0.055,
+                      'form_readonly': 0.06, 'form_strided': 0.051,
                       'near_face': 0.085, 'near_1e-12_1e-8': 0.022, 'near_1e-8_1e-3': 0.07, 'sym': 0.04, 'sym_half': 0.018, 'decades': 0.04,
                       'form_narrow': 0.045, 'recycled': 0.05, 'recycled_inplace': 0.025, 'recycled_setter': 0.018,
                       'inputs_kept': 0.45},
@@ -2496,26 +2496,26 @@ CLAUSES = [
            desc="dump('atom_data') for every combination of two and three sub-styles of atom_style hybrid that share a column with a "
                 "LAMMPS unit, under every unit style that rescales it: the shared column is listed once and converted once"),
     Clause('dump', oracle_dump, dump_cases, quick=4000, thorough=100000,
-           min_share={'tiny_tilt': 0.085, 'tiny_1e-9_1e-5': 0.04, 'tiny_cleaned': 0.045, 'tiny_1e-5_1e-3': 0.035, 'wu': 0.12,
-                      'wu_pre_default': 0.065, 'wu_pre_other': 0.025, 'wu_named': 0.08, 'wu_seed': 0.017, 'wu_SI': 0.014,
+           min_share={'tiny_tilt': 0.085, 'tiny_1e-9_1e-5': 0.04, 'tiny_cleaned': 0.045, 'tiny_1e-5_1e-3': 0.028, 'wu': 0.12,
+                      'wu_pre_default': 0.053, 'wu_pre_other': 0.025, 'wu_named': 0.08, 'wu_seed': 0.015, 'wu_SI': 0.012,
                       'nt': 0.2, 'explicit': 0.12, 'neg_tilt': 0.08, 'own_ids': 0.12, 'history': 0.035, 'form_list': 0.06,
-                      'form_fortran': 0.065, 'form_readonly': 0.05, 'form_strided': 0.055,
-                      'near_face': 0.1, 'near_1e-12_1e-8': 0.03, 'sym': 0.065, 'sym_half': 0.025, 'decades': 0.05, 'form_narrow': 0.03,
+                      'form_fortran': 0.062, 'form_readonly': 0.05, 'form_strided': 0.051,
+                      'near_face': 0.093, 'near_1e-12_1e-8': 0.03, 'sym': 0.065, 'sym_half': 0.024, 'decades': 0.05, 'form_narrow': 0.03,
                       'recycled': 0.1, 'all_pos_variants': 0.035, 'inputs_kept': 0.45},
            desc="dump('atom_dump'): ITEM blocks, boundary flags, bounding box <-> lo/hi/tilt relation, column header, "
                 "x|xs|xu|xsu unscaled with the written box, standard columns in LAMMPS units, extras as stored"),
     Clause('poscar', oracle_poscar, poscar_cases, quick=4400, thorough=80000,
-           min_share={} if 'poscar' in _BLOCKED else {'tiny_tilt': 0.08, 'tiny_1e-9_1e-5': 0.037, 'tiny_cleaned': 0.05, 'tiny_1e-5_1e-3': 0.03,
+           min_share={} if 'poscar' in _BLOCKED else {'tiny_tilt': 0.08, 'tiny_1e-9_1e-5': 0.037, 'tiny_cleaned': 0.047, 'tiny_1e-5_1e-3': 0.028,
                                                               'nt': 0.15, 'cartesian': 0.08, 'scaled': 0.12, 'symbols': 0.15, 'zero_count': 0.05,
                                                               'repeated_symbol': 0.06, 'form_list': 0.045, 'form_fortran': 0.037,
-                                                              'form_readonly': 0.055, 'form_strided': 0.04,
-                                                              'near_face': 0.1, 'near_1e-12_1e-8': 0.04, 'sym': 0.09, 'sym_perm': 0.07,
+                                                              'form_readonly': 0.052, 'form_strided': 0.04,
+                                                              'near_face': 0.093, 'near_1e-12_1e-8': 0.034, 'sym': 0.09, 'sym_perm': 0.07,
                                                               'scale_near1': 0.15, 'form_narrow': 0.035,
                                                               'recycled': 0.045, 'inputs_kept': 0.45},
            desc="dump('poscar'): comment, scale, scale*lattice = box, species line, counts per type, mode line, "
                 "positions with the scale applied (up to the box origin), grouped by type"),
     Clause('ledger', oracle_ledger, ledger_cases, quick=350, thorough=12000,
-           min_share={'two_dumps': 0.16, 'pinfo_returned': 0.38, 'pinfo_in': 0.12, 'later_same_object': 0.25, 'kind_data': 0.17,
+           min_share={'two_dumps': 0.16, 'pinfo_returned': 0.37, 'pinfo_in': 0.12, 'later_same_object': 0.25, 'kind_data': 0.17,
                       'kind_poscar': 0.11, 'caller_overwrote': 0.45, 'recycled': 0.15, 'nt': 0.35},
            desc="sequences of 2-3 writer calls (atom_dump with return_prop_info, atom_data, poscar): everything returned (content, "
                 "snippet, prop_info, file-like object) and handed in (system, caller's arrays, prop_info= list) is bit-identical after later "
@@ -2526,7 +2526,7 @@ CLAUSES = [
                                                                'nt': 0.4, 'defaults': 0.01, 'pot': 0.22, 'pot_override': 0.18,
                                                                'pot_own': 0.08, 'pot_prior_use': 0.05, 'pot_allsymbols_added': 0.02,
                                                                'pot_sysmasses': 0.08, 'pot_comments': 0.08, 'read_data': 0.02,
-                                                               'history': 0.12, 'form_narrow': 0.05, 'recycled': 0.05, 'sym': 0.065},
+                                                               'history': 0.1, 'form_narrow': 0.05, 'recycled': 0.05, 'sym': 0.065},
            desc="command snippet returned with a data file, without and with potential= (explicit units/atom_style overriding "
                 "the potential's): boundary flags, units and atom_style actually used, read_data file name, command order, "
                 "pair_style/pair_coeff/mass lines for exactly the atom types of the file, comments switch"),
